@@ -280,3 +280,293 @@ Example C02_nonvacuous :
   | None => false
   end = true.
 Proof. vm_compute. reflexivity. Qed.
+
+(* ======================================================================================================================
+   ROUND 2 — oracle hypotheses of [C02_history_inv_partial] discharged by the finished developments C13, C01, C04/C14/C15.
+   Proofs: Proofs/Hist2{Compress,Krylov,Local,Solvers,Sweep,Dmrg,Top}.v.
+
+   Now theorems about executable models (no longer hypotheses "the result satisfies the invariant"):
+     Compress (both modes)        [C02_compress_step_contract]       from C13_compress_left_spec / _right_spec
+     OrthMpo (mode 'right')       [C02_orth_mpo_right_step_contract] from C01_mpo_orth_right_spec
+     Tdvp / Dmrg, single-site     [C02_tdvp_step_contract_partial], [C02_dmrg_step_contract_partial]: the sweep models of
+                                  Model/Sweeps.v keep every site tensor block sparse under the CURRENT qD after every local
+                                  solver call + QR, and every environment block under (psi.qD, H.qD, psi.qD) -- relative to
+                                  per-call contracts that are themselves theorems for the Krylov solvers whenever the call
+                                  returns ([C02_lanczos_calls_meet_contracts], no contract on norm / eigh_tridiagonal / exp),
+                                  for bond_ops.qr by C11 ([C02_qr_contract_from_C11]) and for the preliminary
+                                  psi.orthonormalize(mode='right') by C01 ([C02_orth_right_model_facts]).
+     total charge through compress [C02_total_charge_kept_compress]  for a state with a non-zero amplitude and L*tol < 1.
+   What remains a hypothesis: the two-site variants of Tdvp / Dmrg (merge + split with truncation: C02_split_ok covers one
+   split; the two-site sweep invariant is not written), that the operator is charge neutral with non-empty bonds
+   (hd / last of H.qD = [0]; needed: otherwise apply_local_hamiltonian leaves the sector), that the Krylov calls return
+   (start tensor not zero), and total charge through Tdvp / Dmrg (qD[0] is rebound only by DMRG's final QR; not stated).
+   ====================================================================================================================== *)
+From PT Require Import Model.Operation Model.Krylov Model.Sweeps.
+From PT Require Import Proofs.LinkFlatten Proofs.LinkSolvers Proofs.CompressTop Proofs.CompressBool Proofs.OrthBool Proofs.CompressPartial.
+From PT Require Import Proofs.Hist2Compress Proofs.Hist2Krylov Proofs.Hist2Local Proofs.Hist2Solvers Proofs.Hist2Sweep Proofs.Hist2Dmrg Proofs.Hist2Top.
+From PT Require Import Proofs.Hist2Example.
+
+(* ---- target 1: the Compress step (both modes) and OrthMpo (mode 'right') ---- *)
+(* result function = the model of MPS.compress with tolerance tolf tag; hypotheses = those of C13 (d >= 1, L >= 1, boundary
+   bonds 1, no empty bond; 0 <= tol < 1; LAPACK's QR contract on the preliminary orthonormalisation, dsvd_ok / pick_ok on the
+   truncation steps, abs on the final T -- on the calls issued) *)
+Theorem C02_compress_step_contract : forall (F : ofield) dqr dsvd pick cabs (tolf : nat -> F)
+    (O : oracles (Cx F)) (s : state (Cx F)) (i tag : nat) (left : bool),
+  or_compress O = compress_result F dqr dsvd pick cabs tolf ->
+  (forall p, nth_error (states s) i = Some p -> orth_pre F p /\ compress_hyps F dqr dsvd pick cabs (tolf tag) left p) ->
+  oracle_ok_at (Cx F) O s (Compress i tag left).
+Proof. exact compress_step_contract. Qed.
+Print Assumptions C02_compress_step_contract.
+
+(* the compressed object: invariant and boundary bonds of dimension 1 (so that it is again a valid operand) *)
+Theorem C02_compress_result_ok : forall (F : ofield) dqr dsvd pick cabs (tolf : nat -> F) (tag : nat) (left : bool) (p : mps (Cx F)),
+  mps_ok p = true -> orth_pre F p -> compress_hyps F dqr dsvd pick cabs (tolf tag) left p ->
+  mps_ok (compress_result F dqr dsvd pick cabs tolf tag left p) = true /\
+  length (hd [] (m_qD (compress_result F dqr dsvd pick cabs tolf tag left p))) = 1 /\
+  length (last (m_qD (compress_result F dqr dsvd pick cabs tolf tag left p)) []) = 1.
+Proof. exact compress_result_ok. Qed.
+Print Assumptions C02_compress_result_ok.
+
+Theorem C02_orth_mpo_right_step_contract : forall (F : ofield) (dqr : mx (Cx F) -> mx (Cx F) * mx (Cx F))
+    (O : oracles (Cx F)) (s : state (Cx F)) (a : nat),
+  or_orth_mpo O = orth_mpo_result F dqr ->
+  (forall x, nth_error (operators s) a = Some x ->
+     orth_mpo_pre F x /\ Forall (qr_call_ok F dqr) (mpo_orth_calls dqr false x)) ->
+  oracle_ok_at (Cx F) O s (OrthMpo a false).
+Proof. exact orth_mpo_right_step_contract. Qed.
+Print Assumptions C02_orth_mpo_right_step_contract.
+
+(* ---- target 2: total charge through MPS.compress (both modes) ---- *)
+Theorem C02_total_charge_kept_compress : forall (F : ofield) dqr dsvd pick cabs (tol : F) (left : bool) (p : mps (Cx F)) (w : list nat),
+  mps_ok p = true -> orth_pre F p -> compress_hyps F dqr dsvd pick cabs tol left p ->
+  length w = length (m_A p) -> Forall (fun s => s < length (m_qd p)) w -> amp (m_A p) w <> k0 (Cx F) ->
+  flt F (nsmul (length (m_A p)) tol) (f1 F) ->
+  exists p' nrm sc, mps_compress dqr dsvd pick cabs tol left p = Some (p', nrm, sc) /\ mps_ok p' = true /\ m_qd p' = m_qd p /\
+    hd [] (m_qD p') = hd [] (m_qD p) /\ last (m_qD p') [] = last (m_qD p) [].
+Proof. exact compress_total_charge_kept. Qed.
+Print Assumptions C02_total_charge_kept_compress.
+
+(* the same with the bare hypothesis "the returned scale is not zero" instead of L*tol < 1 *)
+Theorem C02_total_charge_kept_compress_scale : forall (F : ofield) dqr dsvd pick cabs (tol : F) (left : bool) (p : mps (Cx F)) (w : list nat),
+  mps_ok p = true -> orth_pre F p -> compress_hyps F dqr dsvd pick cabs tol left p ->
+  length w = length (m_A p) -> Forall (fun s => s < length (m_qd p)) w -> amp (m_A p) w <> k0 (Cx F) ->
+  (forall p' nrm sc, mps_compress dqr dsvd pick cabs tol left p = Some (p', nrm, sc) -> sc <> f0 F) ->
+  exists p' nrm sc, mps_compress dqr dsvd pick cabs tol left p = Some (p', nrm, sc) /\ mps_ok p' = true /\ m_qd p' = m_qd p /\
+    hd [] (m_qD p') = hd [] (m_qD p) /\ last (m_qD p') [] = last (m_qD p) [].
+Proof. exact compress_total_charge_kept_sc. Qed.
+Print Assumptions C02_total_charge_kept_compress_scale.
+
+(* ---- target 3a: zero patterns through the Krylov routines.  Z = set of forbidden positions; supp F Z x: x vanishes on Z.
+        If Afunc preserves "vanishes on Z" and the start vector vanishes on Z, then so do all Lanczos / Arnoldi vectors, all
+        returned Ritz vectors and the result of expm_krylov (both branches) -- for arbitrary answers of the numerical
+        primitives (no oracle contract). ---- *)
+Theorem C02_krylov_preserves_pattern : forall (F : ofield) (Z : nat -> Prop) (Afunc : list (Cx F) -> list (Cx F)) dnorm small deigh dexp dexpm,
+  (forall x, supp F Z x -> supp F Z (Afunc x)) ->
+  forall v m, supp F Z v ->
+  (forall al be Vs wn, lanczos F Afunc dnorm small v m = Some (al, be, Vs, wn) -> Forall (supp F Z) Vs) /\
+  (forall H Vs wn, arnoldi F Afunc dnorm small v m = Some (H, Vs, wn) -> Forall (supp F Z) Vs) /\
+  (forall numeig ws us, eigh_krylov F Afunc dnorm small deigh v m numeig = Some (ws, us) -> Forall (supp F Z) us) /\
+  (forall dt herm x, expm_krylov F Afunc dnorm small deigh dexp dexpm v dt m herm = Some x -> supp F Z x).
+Proof.
+  intros F Z Afunc dnorm small deigh dexp dexpm HA v m Hv. split; [|split; [|split]].
+  - intros al be Vs wn. exact (lanczos_supp F Z Afunc dnorm small HA v m al be Vs wn Hv).
+  - intros H Vs wn. exact (arnoldi_supp F Z Afunc dnorm small HA v m H Vs wn Hv).
+  - intros numeig ws us. exact (eigh_krylov_supp F Z Afunc dnorm small HA deigh v m numeig ws us Hv).
+  - intros dt herm x. exact (expm_krylov_supp F Z Afunc dnorm small HA deigh dexp dexpm v dt m herm x Hv).
+Qed.
+Print Assumptions C02_krylov_preserves_pattern.
+
+(* ---- target 3b: the contraction lemmas (style of C02_merge_ok).  env_okP qk qw qb E: the block has shape
+        (|qk|, |qw|, |qb|) and E[a, w, b] <> 0 -> qk[a] + qw[w] = qb[b]; the code's assertion
+        is_qsparse(BR[i], [psi.qD[i+1], H.qD[i+1], -psi.qD[i+1]]) is the second half with qk = qb. ---- *)
+Theorem C02_env_assertion_meaning : forall (R : cring) qk qw qb (E : env R),
+  env_qsparse qk qw (Sweeps.zneg qb) E = true <->
+  forall w a b, w < length qw -> a < length qk -> b < length qb -> get (esel E w) a b <> k0 R ->
+    (zget qk a + zget qw w = zget qb b)%Z.
+Proof. exact env_qsparse_spec. Qed.
+Print Assumptions C02_env_assertion_meaning.
+
+Theorem C02_local_contractions_ok : forall (R : cring) qd qwl qwr (W : osite R),
+  0 < length qd -> 0 < length qwl -> 0 < length qwr -> osite_okP R qd qwl qwr W ->
+  (* contraction_operator_step_right / _left *)
+  (forall qal qar qbl qbr (A B : site R) (E : env R),
+     site_okP R qd qal qar A -> site_okP R qd qbl qbr B -> env_okP R qar qwr qbr E ->
+     env_okP R qal qwl qbl (contraction_operator_step_right A B W E)) /\
+  (forall qal qar qbl qbr (A B : site R) (L : env R),
+     site_okP R qd qal qar A -> site_okP R qd qbl qbr B -> env_okP R qal qwl qbl L ->
+     env_okP R qar qwr qbr (contraction_operator_step_left A B W L)) /\
+  (* apply_local_hamiltonian *)
+  (forall ql qr (L E : env R) (X : site R),
+     env_okP R ql qwl ql L -> env_okP R qr qwr qr E -> site_okP R qd ql qr X ->
+     site_okP R qd ql qr (apply_local_hamiltonian L E W X)).
+Proof.
+  intros R qd qwl qwr W Hd Hwl Hwr HW. split; [|split].
+  - intros qal qar qbl qbr A B E. exact (opstep_right_okP R qd qwl qwr W Hd Hwl Hwr HW qal qar qbl qbr A B E).
+  - intros qal qar qbl qbr A B L. exact (opstep_left_okP R qd qwl qwr W Hd Hwl Hwr HW qal qar qbl qbr A B L).
+  - intros ql qr L E X. exact (alh_okP R qd qwl qwr W Hd Hwl Hwr HW ql qr L E X).
+Qed.
+Print Assumptions C02_local_contractions_ok.
+
+(* apply_local_bond_contraction on a bond matrix (C[a, b] <> 0 -> ql[a] = qr[b]) *)
+Theorem C02_bond_contraction_ok : forall (R : cring) qw ql qr (L E : env R) (C : mx R), 0 < length qw ->
+  env_okP R ql qw ql L -> env_okP R qr qw qr E -> bond_okP R ql qr C -> bond_okP R ql qr (apply_local_bond_contraction L E C).
+Proof. exact albc_okP. Qed.
+Print Assumptions C02_bond_contraction_ok.
+
+(* ---- target 3c: the concrete local solvers (Proofs/LinkSolvers.v) keep block sparsity whenever the call returns ---- *)
+Theorem C02_local_solvers_sparse : forall (F : ofield) dnorm small deigh dexp dexpm numiter qd qwl qwr ql qr
+    (BL BR : env (Cx F)) (W : osite (Cx F)),
+  0 < length qd -> 0 < length qwl -> 0 < length qwr -> osite_okP (Cx F) qd qwl qwr W ->
+  env_okP (Cx F) ql qwl ql BL -> env_okP (Cx F) qr qwr qr BR ->
+  (forall pos A t, site_okP (Cx F) qd ql qr A -> kexp_lanczos_returns F dnorm small deigh dexp dexpm numiter BL BR W A t ->
+     site_okP (Cx F) qd ql qr (kexp_lanczos F dnorm small deigh dexp dexpm numiter pos BL BR W A t)) /\
+  (forall pos A, site_okP (Cx F) qd ql qr A -> keig_lanczos_returns F dnorm small deigh numiter BL BR W A ->
+     site_okP (Cx F) qd ql qr (snd (keig_lanczos F dnorm small deigh numiter pos BL BR W A))).
+Proof.
+  intros F dnorm small deigh dexp dexpm numiter qd qwl qwr ql qr BL BR W Hd Hwl Hwr HW HL HR. split.
+  - intros pos A t. exact (kexp_lanczos_okP F dnorm small deigh dexp dexpm numiter qd qwl qwr ql qr BL BR W Hd Hwl Hwr HW HL HR pos A t).
+  - intros pos A. exact (keig_lanczos_okP F dnorm small deigh numiter qd qwl qwr ql qr BL BR W Hd Hwl Hwr HW HL HR pos A).
+Qed.
+Print Assumptions C02_local_solvers_sparse.
+
+Theorem C02_bond_solver_sparse : forall (F : ofield) dnorm small deigh dexp dexpm numiter qw ql qr pos
+    (BL BR : env (Cx F)) (C : mx (Cx F)) (t : Cx F), 0 < length qw ->
+  env_okP (Cx F) ql qw ql BL -> env_okP (Cx F) qr qw qr BR -> wfb C = true -> bond_okP (Cx F) ql qr C ->
+  kexp0_lanczos_returns F dnorm small deigh dexp dexpm numiter BL BR C t ->
+  bond_okP (Cx F) ql qr (kexp0_lanczos F dnorm small deigh dexp dexpm numiter pos BL BR C t).
+Proof. exact kexp0_lanczos_okP. Qed.
+Print Assumptions C02_bond_solver_sparse.
+
+(* ---- target 3d: whole single-site runs.  [sp_tr_ok]: every recorded call meets its sparsity contract (solver answer block
+        sparse under the charges of its start tensor if the arguments are; QR factors block sparse under the returned charges,
+        which are non-empty and not longer than the matrix is wide). ---- *)
+Theorem C02_tdvp1_run_sparse : forall (R : cring) orth qr kexp kexp0 (H : mpo R) (psi : mps R) dt hdt n A qD nrm tr,
+  tdvp_singlesite orth qr kexp kexp0 H psi dt hdt n = Some (A, qD, nrm, tr) ->
+  mpo_ok H = true -> o_qd H = m_qd psi -> Forall (fun q => 0 < length q) (o_qD H) ->
+  hd [] (o_qD H) = [0%Z] -> last (o_qD H) [] = [0%Z] ->
+  0 < length (m_qd psi) -> m_qd (fst (orth psi)) = m_qd psi -> mps_ok (fst (orth psi)) = true ->
+  length (hd [] (m_qD (fst (orth psi)))) = 1 -> length (last (m_qD (fst (orth psi))) []) = 1 ->
+  sp_tr_ok R qr kexp kexp0 (fun _ _ _ _ _ => (k0 R, [])) (o_A H) (m_qd psi) (o_qD H) dt hdt (rev tr) ->
+  mps_ok (mkmps (m_qd psi) qD A) = true /\ nrm = snd (orth psi).
+Proof. exact tdvp1_mps_ok. Qed.
+Print Assumptions C02_tdvp1_run_sparse.
+
+Theorem C02_dmrg1_run_sparse : forall (R : cring) orth qr keig (H : mpo R) (psi : mps R) n A qD ens tr,
+  dmrg_singlesite orth qr keig H psi n = Some (A, qD, ens, tr) ->
+  mpo_ok H = true -> o_qd H = m_qd psi -> Forall (fun q => 0 < length q) (o_qD H) ->
+  hd [] (o_qD H) = [0%Z] -> last (o_qD H) [] = [0%Z] ->
+  0 < length (m_qd psi) -> m_qd (fst (orth psi)) = m_qd psi -> mps_ok (fst (orth psi)) = true ->
+  length (hd [] (m_qD (fst (orth psi)))) = 1 -> length (last (m_qD (fst (orth psi))) []) = 1 ->
+  sp_tr_ok R qr (fun _ _ _ _ X _ => X) (fun _ _ _ C _ => C) keig (o_A H) (m_qd psi) (o_qD H) (k0 R) (k0 R) (rev tr) ->
+  mps_ok (mkmps (m_qd psi) qD A) = true.
+Proof. exact dmrg1_mps_ok. Qed.
+Print Assumptions C02_dmrg1_run_sparse.
+
+(* the prologue: the right operator blocks of a block-sparse state and operator are block sparse, i.e. the assertion
+   is_qsparse(BR[i], ...) of the four sweep functions cannot fire, and the sweep invariant holds with centre 0 *)
+Theorem C02_sweep_prologue_sparse : forall (R : cring) (qd : list Z), 0 < length qd ->
+  forall (Hs : list (osite R)) (qWs : list (list Z)) orth (H : mpo R) psi st nrm,
+  chainP (osite_okP R qd) qWs Hs -> (forall j, j <= length Hs -> 0 < length (nth j qWs [])) -> nth 0 qWs [] = [0%Z] ->
+  sweep_init orth H psi = Some (st, nrm) ->
+  o_A H = Hs -> o_qD H = qWs -> last qWs [] = [0%Z] ->
+  m_qd (fst (orth psi)) = qd -> mps_ok (fst (orth psi)) = true ->
+  length (hd [] (m_qD (fst (orth psi)))) = 1 -> length (last (m_qD (fst (orth psi))) []) = 1 ->
+  ZQ R Hs qd qWs st 0 /\ gBL st 0 = env_one /\ s_tr st = [] /\ nrm = snd (orth psi).
+Proof. exact ZQ_init. Qed.
+Print Assumptions C02_sweep_prologue_sparse.
+
+(* the per-call contracts are theorems for the Krylov-based solvers: what remains is "the solver call returns" and C11's
+   conclusion for the QR calls *)
+Theorem C02_lanczos_calls_meet_contracts : forall (F : ofield) dnorm small deigh dexp dexpm numiter qr
+    (Hs : list (osite (Cx F))) qd qWs (dt hdt : Cx F),
+  0 < length qd -> chainP (osite_okP (Cx F) qd) qWs Hs -> (forall j, j <= length Hs -> 0 < length (nth j qWs [])) ->
+  forall tr, lz_tr_ok F dnorm small deigh dexp dexpm numiter qr Hs dt hdt tr ->
+  sp_tr_ok (Cx F) qr (kexp_lanczos F dnorm small deigh dexp dexpm numiter) (kexp0_lanczos F dnorm small deigh dexp dexpm numiter)
+           (keig_lanczos F dnorm small deigh numiter) Hs qd qWs dt hdt tr.
+Proof. exact lz_tr_sp. Qed.
+Print Assumptions C02_lanczos_calls_meet_contracts.
+
+Theorem C02_qr_contract_from_C11 : forall (R : cring) (M Q Rm : mx R) (q0 q1 qi : list Z),
+  bond_okP R q0 q1 M ->
+  wf Rm -> nr Q = nr M -> nc Q = length qi -> nr Rm = length qi -> nc Rm = nc M -> 0 < length qi -> length qi <= Nat.min (nr M) (nc M) ->
+  BondOpsLoop.qsp R Q q0 qi -> BondOpsLoop.qsp R Rm qi q1 -> wfb Rm = true ->
+  qr_sp_ok R M q0 q1 (Q, Rm, qi).
+Proof. exact qr_sp_of_C11. Qed.
+Print Assumptions C02_qr_contract_from_C11.
+
+Theorem C02_orth_right_model_facts : forall (F : ofield) dqr (p : mps (Cx F)),
+  mps_ok p = true -> orth_pre F p -> Forall (qr_call_ok F dqr) (mps_orth_calls dqr false p) ->
+  m_qd (fst (orth_right_model F dqr p)) = m_qd p /\ mps_ok (fst (orth_right_model F dqr p)) = true /\
+  length (hd [] (m_qD (fst (orth_right_model F dqr p)))) = 1 /\ length (last (m_qD (fst (orth_right_model F dqr p))) []) = 1.
+Proof. exact orth_right_model_facts. Qed.
+Print Assumptions C02_orth_right_model_facts.
+
+(* the Tdvp / Dmrg steps (single-site, twosite = false) of the state machine, result function = the sweep model *)
+Theorem C02_tdvp_step_contract_partial : forall (R : cring) orth qr kexp kexp0 (tdvp_par : nat -> R * R * nat)
+    (O : oracles R) (s : state R) (a i tag : nat),
+  or_tdvp O false = tdvp1_result R orth qr kexp kexp0 tdvp_par ->
+  (forall x p, nth_error (operators s) a = Some x -> nth_error (states s) i = Some p ->
+     sweep_pre R orth x p /\ tdvp1_calls_ok R orth qr kexp kexp0 tdvp_par tag x p) ->
+  oracle_ok_at R O s (Tdvp false a i tag).
+Proof. exact tdvp1_step_contract. Qed.
+Print Assumptions C02_tdvp_step_contract_partial.
+
+Theorem C02_dmrg_step_contract_partial : forall (R : cring) orth qr keig (dmrg_par : nat -> nat)
+    (O : oracles R) (s : state R) (a i tag : nat),
+  or_dmrg O false = dmrg1_result R orth qr keig dmrg_par ->
+  (forall x p, nth_error (operators s) a = Some x -> nth_error (states s) i = Some p ->
+     sweep_pre R orth x p /\ dmrg1_calls_ok R orth qr keig dmrg_par tag x p) ->
+  oracle_ok_at R O s (Dmrg false a i tag).
+Proof. exact dmrg1_step_contract. Qed.
+Print Assumptions C02_dmrg_step_contract_partial.
+(* NOT PROVED (full statements):
+     C02_tdvp_step_contract / C02_dmrg_step_contract for twosite = true:
+       forall ..., or_tdvp O true = (result of Model/Sweeps.v tdvp_twosite) -> (split contract of C12 on every issued
+       split_mps_tensor call, solver calls return) -> oracle_ok_at R O s (Tdvp true a i tag)          (and Dmrg true);
+     total_charge_kept for Tdvp / Dmrg: hd and last of the returned qD equal those of psi for a non-zero state. *)
+
+(* ---- non-vacuity, round 2 ----
+   (1) the charged product state ex2_p (qd = [0;1], bond charges [0] [0] [1], total charge 1, amplitude 12 on the word (0,1))
+       meets every hypothesis of C02_compress_step_contract / C02_total_charge_kept_compress in BOTH modes with tol = 1/10
+       (L*tol = 1/5 < 1), and the model returns a state satisfying the invariant with unchanged boundary charges;
+   (2) a one-site TDVP run over Z[i] (identity operator with bond charges [0] [0]) returns, and its recorded call meets the
+       contract [sp_tr_ok]; all hypotheses of C02_tdvp1_run_sparse hold. *)
+Example C02_compress_nonvacuous : forall left : bool,
+  mps_ok ex2_p = true /\ orth_pre QcF ex2_p /\
+  compress_hyps QcF (qr_oracle ex2_qtbl) (svd_oracle ex2_stbl) ex2_pick ex2_abs ex2_tol left ex2_p /\
+  length ex2_word = length (m_A ex2_p) /\ Forall (fun s => s < length (m_qd ex2_p)) ex2_word /\
+  amp (m_A ex2_p) ex2_word <> k0 (Cx QcF) /\
+  flt QcF (nsmul (length (m_A ex2_p)) ex2_tol) (f1 QcF) /\
+  match mps_compress (qr_oracle ex2_qtbl) (svd_oracle ex2_stbl) ex2_pick ex2_abs ex2_tol left ex2_p with
+  | Some (p', nrm, sc) => mps_ok p' && boundary_eq2 p' ex2_p && feqb QcF nrm (qq2 12 1) && feqb QcF sc (qq2 1 1)
+  | None => false end = true.
+Proof.
+  intros left. split; [vm_compute; reflexivity|].
+  split. { split; [cbn; lia|]. split; [discriminate|]. split; [reflexivity|]. split; [reflexivity|]. repeat constructor. }
+  split.
+  { split; [vm_compute; reflexivity|]. split; [vm_compute; reflexivity|].
+    split; [apply qr_call_okb_sound; destruct left; vm_compute; reflexivity|].
+    split; [apply (compress_hyp_of_bool QcF (qr_oracle ex2_qtbl) (svd_oracle ex2_stbl) ex2_pick ex2_tol left ex2_p); destruct left; vm_compute; reflexivity|].
+    apply (abs_hyp_of_bool QcF (qr_oracle ex2_qtbl) (svd_oracle ex2_stbl) ex2_pick ex2_abs ex2_tol left ex2_p); destruct left; vm_compute; reflexivity. }
+  split; [reflexivity|]. split; [repeat constructor|].
+  split. { intros E. apply (f_equal (fun z => keqb (Cx QcF) z (k0 (Cx QcF)))) in E. vm_compute in E. discriminate E. }
+  split; [vm_compute; reflexivity|]. destruct left; vm_compute; reflexivity.
+Qed.
+
+Example C02_tdvp1_nonvacuous :
+  match tdvp_singlesite ex2_orth ex2_qr ex2_kexp ex2_kexp0 ex2_H ex2_psi ((0, 1)%Z : GIring) ((0, 1)%Z : GIring) 2 with
+  | Some (A, qD, nrm, tr) =>
+      length tr = 2 /\ mps_ok (mkmps (m_qd ex2_psi) qD A) = true /\
+      sp_tr_ok GIring ex2_qr ex2_kexp ex2_kexp0 (fun _ _ _ _ _ => (k0 GIring, [])) (o_A ex2_H) (m_qd ex2_psi) (o_qD ex2_H)
+               ((0, 1)%Z : GIring) ((0, 1)%Z : GIring) (rev tr)
+  | None => False end /\
+  mpo_ok ex2_H = true /\ o_qd ex2_H = m_qd ex2_psi /\ Forall (fun q => 0 < length q) (o_qD ex2_H) /\
+  hd [] (o_qD ex2_H) = [0%Z] /\ last (o_qD ex2_H) [] = [0%Z] /\ mps_ok (fst (ex2_orth ex2_psi)) = true.
+Proof.
+  split.
+  - vm_compute tdvp_singlesite. split; [reflexivity|]. split; [vm_compute; reflexivity|].
+    cbn [rev app sp_tr_ok]. split; [|split; [|exact I]]; unfold sp_call_ok; cbn [t_call c_kind c_site c_coef t_envs t_ten t_qs];
+      intros ql qr' HA _ _; exact HA.
+  - split; [vm_compute; reflexivity|]. split; [reflexivity|]. split; [repeat constructor|]. split; [reflexivity|].
+    split; [reflexivity|]. vm_compute; reflexivity.
+Qed.
